@@ -431,7 +431,29 @@ impl Prop for ChainProp {
                     // Items may be held for as long as the stream's borrow of the connection
                     // lasts; that is what the signature promises to safe code.
                     let mut held: Vec<Held<'_>> = Vec::new();
+                    // allocator slot -> (index of the held item, data-read epoch when it was yielded)
+                    let alloc_slots: RefCell<Vec<(usize, u64)>> = RefCell::new(Vec::new());
+                    crate::alloc_watch::reset();
+                    struct Release;
+                    impl Drop for Release {
+                        fn drop(&mut self) {
+                            // held items die with this block: their memory may be freed from here on
+                            crate::alloc_watch::release_all();
+                        }
+                    }
+                    let _release = Release;
                     let check_held = |held: &Vec<Held<'_>>, when: &str| -> Option<(String, String)> {
+                        // Did the allocator see memory of a held item freed, moved or cut off?
+                        if let Some((slot, kind, at_epoch)) = crate::alloc_watch::hit() {
+                            let what = ["", "freed", "handed to a growing reallocation (which may move it)", "cut off by a shrinking reallocation"][kind as usize];
+                            let (k, held_epoch) = alloc_slots.borrow().get(slot).copied().unwrap_or((usize::MAX, 0));
+                            return Some(if at_epoch > held_epoch {
+                                // a transport read returned data in between: growth for later data (F4)
+                                ("C11/reallocated-by-later-transport-read".into(), format!("{when}: the memory held item {k} points to was {what} after a later transport read returned data, while the item was still held"))
+                            } else {
+                                ("C11/freed-without-transport-read".into(), format!("{when}: the memory held item {k} points to was {what} although no transport read has returned data since the item was yielded, while the item was still held"))
+                            });
+                        }
                         let w = world2.borrow();
                         let pipe = &w.pipes[rd];
                         for (k, h) in held.iter().enumerate() {
@@ -469,6 +491,7 @@ impl Prop for ChainProp {
 
                     macro_rules! drive {
                         ($stream:expr) => {{
+                            {
                             let stream = $stream;
                             pin_mut!(stream);
                             prog2.borrow_mut().sent = true;
@@ -509,6 +532,9 @@ impl Prop for ChainProp {
                                                         let mut w = world2.borrow_mut();
                                                         w.watches.push(crate::world::Watch::new(rd, t, held.len()));
                                                         watch = Some(w.watches.len() - 1);
+                                                        if crate::alloc_watch::hold(t.as_ptr() as usize, t.len()).is_some() {
+                                                            alloc_slots.borrow_mut().push((held.len(), crate::alloc_watch::epoch()));
+                                                        }
                                                     }
                                                 }
                                                 held.push(Held { item: it, rendered_at_yield: r, watch });
@@ -522,6 +548,15 @@ impl Prop for ChainProp {
                             }
                             if borrowed {
                                 if let Some(f) = check_held(&held, "after the stream ended") {
+                                    prog2.borrow_mut().fail = Some(f);
+                                    return;
+                                }
+                            }
+                            }
+                            // the stream object is gone; its items live as long as the borrow of
+                            // the connection does (that is their lifetime in the signature)
+                            if borrowed {
+                                if let Some(f) = check_held(&held, "after the reply stream was dropped") {
                                     prog2.borrow_mut().fail = Some(f);
                                     return;
                                 }
